@@ -1,0 +1,116 @@
+//go:build verif
+
+// Contracts for the deductive verifier in /verif (govc). Comment-only.
+
+package common
+
+// ---- ghost query descriptor: which builder calls were made on the bun query (nothing is assumed about SQL) ----
+
+//@ ghost qLimit int
+//@ ghost qOffset int
+//@ ghost qOrderExpr string
+//@ ghost qWhere string
+//@ ghost qWhereCount int
+//@ ghost qLimitCount int
+//@ ghost qOffsetCount int
+
+//@ assumed func (q *bun.SelectQuery) Limit(n int) (r *bun.SelectQuery)
+//@   modifies qLimit, qLimitCount
+//@   ensures qLimit == n && qLimitCount == old(qLimitCount) + 1 && r != nil
+
+//@ assumed func (q *bun.SelectQuery) Offset(n int) (r *bun.SelectQuery)
+//@   modifies qOffset, qOffsetCount
+//@   ensures qOffset == n && qOffsetCount == old(qOffsetCount) + 1 && r != nil
+
+//@ assumed func (q *bun.SelectQuery) Order(orders ...string) (r *bun.SelectQuery)
+//@   modifies qOrderExpr
+//@   ensures len(orders) == 1 ==> qOrderExpr == orders[0]
+//@   ensures r != nil
+
+//@ assumed func (q *bun.SelectQuery) Where(query string, args ...any) (r *bun.SelectQuery)
+//@   modifies qWhere, qWhereCount
+//@   ensures qWhere == query && qWhereCount == old(qWhereCount) + 1 && r != nil
+
+//@ assumed func (o paginate.Order) Reverse() (r paginate.Order)
+//@   ensures r == (o + 1) % 2
+
+// pidOf is the pagination key of a row (reflection over struct tags: not interpreted)
+//@ declare pidOf(v any, fields []reflect.StructField) bigint
+//@ axiom forall v any, f []reflect.StructField :: {pidOf(v, f)} pidOf(v, f) != nil
+//@ assumed func findPaginationField(v any, fields ...reflect.StructField) (r *big.Int)
+//@   ensures r == pidOf(v, fields) && r != nil
+
+// ---- paginator_column.go --------------------------------------------------------------------------
+
+//@ func (o columnPaginator[ResourceType, OptionsType]) Paginate(sb *bun.SelectQuery) (r *bun.SelectQuery, err error)
+//@   property C21
+//@   requires o.query.Order != nil && sb != nil
+//@   modifies qLimit, qLimitCount, qOrderExpr, qWhere, qWhereCount
+//@   ensures err == nil && r != nil
+//@   ensures qLimit == (o.query.PageSize == 0 ? 15 : o.query.PageSize) + 1 && qLimitCount == old(qLimitCount) + 1
+//@   ensures qOrderExpr == sprintf("%s %s", o.fieldName, (o.query.Reverse ? (deref(o.query.Order) + 1) % 2 : deref(o.query.Order)))
+//@   ensures o.query.PaginationID == nil ==> qWhereCount == old(qWhereCount)
+//@   ensures o.query.PaginationID != nil && !o.query.Reverse && deref(o.query.Order) == 0 ==> qWhereCount == old(qWhereCount) + 1 && qWhere == sprintf("%s >= ?", o.fieldName)
+//@   ensures o.query.PaginationID != nil && !o.query.Reverse && deref(o.query.Order) == 1 ==> qWhereCount == old(qWhereCount) + 1 && qWhere == sprintf("%s <= ?", o.fieldName)
+//@   ensures o.query.PaginationID != nil && o.query.Reverse && deref(o.query.Order) == 0 ==> qWhereCount == old(qWhereCount) + 1 && qWhere == sprintf("%s < ?", o.fieldName)
+//@   ensures o.query.PaginationID != nil && o.query.Reverse && deref(o.query.Order) == 1 ==> qWhereCount == old(qWhereCount) + 1 && qWhere == sprintf("%s > ?", o.fieldName)
+
+//@ define effPageSize(ps int) int = ps == 0 ? 15 : ps
+
+//@ func (o columnPaginator[ResourceType, OptionsType]) BuildCursor(ret []ResourceType) (r *paginate.Cursor[ResourceType], err error)
+//@   property C21
+//@   requires o.query.Order != nil
+//@   requires len(ret) <= effPageSize(o.query.PageSize) + 1
+//@   requires o.query.PaginationID != nil ==> o.query.Bottom != nil
+//@   ensures err == nil && r != nil
+//@   ensures len(r.Data) == min(len(ret), effPageSize(o.query.PageSize)) && r.PageSize == effPageSize(o.query.PageSize)
+//@   ensures r.HasMore == (next != nil)
+//@   ensures !o.query.Reverse ==> (next != nil) == (len(ret) > effPageSize(o.query.PageSize))
+//@   ensures !o.query.Reverse && next != nil ==> !next.Reverse && next.PaginationID == pidOf(boxany(ret[effPageSize(o.query.PageSize)]), fields)
+//@   ensures !o.query.Reverse ==> forall i int :: {r.Data[i]} 0 <= i && i < len(r.Data) ==> r.Data[i] == ret[i]
+//@   ensures o.query.Reverse ==> next != nil && !next.Reverse && next.PaginationID == o.query.PaginationID
+//@   ensures o.query.Reverse ==> (previous != nil) == (len(ret) > effPageSize(o.query.PageSize))
+//@   ensures o.query.Reverse && previous != nil ==> previous.Reverse && previous.PaginationID == pidOf(boxany(ret[effPageSize(o.query.PageSize) - 1]), fields)
+//@   ensures o.query.Reverse ==> forall i int :: {r.Data[i]} 0 <= i && i < len(r.Data) ==> r.Data[i] == ret[len(r.Data) - 1 - i]
+//@   ensures !o.query.Reverse && previous != nil ==> previous.Reverse && previous.PaginationID == o.query.PaginationID
+//@   ensures (old(o.query.Bottom) == nil && len(ret) > 0) ==> ((next != nil ==> next.Bottom == pidOf(boxany(ret[0]), fields)) && (previous != nil ==> previous.Bottom == pidOf(boxany(ret[0]), fields)))
+//@   ensures old(o.query.Bottom) != nil ==> ((next != nil ==> next.Bottom == old(o.query.Bottom)) && (previous != nil ==> previous.Bottom == old(o.query.Bottom)))
+//@   loop 1:
+//@     index k
+//@     invariant len(paginationIDs) == k
+//@     invariant forall j int :: {paginationIDs[j]} 0 <= j && j < k ==> paginationIDs[j] == pidOf(boxany(ret[j]), fields)
+//@     invariant o.query.Order == old(o.query.Order) && o.query.PageSize == old(o.query.PageSize) && o.query.Reverse == old(o.query.Reverse) && o.query.PaginationID == old(o.query.PaginationID)
+//@     invariant old(o.query.Bottom) != nil ==> o.query.Bottom == old(o.query.Bottom)
+//@     invariant (old(o.query.Bottom) == nil && k > 0) ==> o.query.Bottom == pidOf(boxany(ret[0]), fields)
+//@     invariant (old(o.query.Bottom) == nil && k == 0) ==> o.query.Bottom == nil
+//@   loop 2:
+//@     invariant 0 <= i && len(ret) == min(len(old(ret)), effPageSize(o.query.PageSize))
+//@     invariant forall j int :: {ret[j]} (0 <= j && j < i) || (len(ret) - i <= j && j < len(ret)) ==> ret[j] == old(ret)[len(ret) - 1 - j]
+//@     invariant forall j int :: {ret[j]} i <= j && j < len(ret) - i ==> ret[j] == old(ret)[j]
+//@     decreases len(ret) - i
+//@   note the clauses about previous / next / fields refer to local variables at the return statement (the cursors are then serialised by encodeCursor, which is opaque)
+
+// ---- paginator_offset.go ----------------------------------------------------------------------------
+
+//@ func (o OffsetPaginator[ResourceType, OptionsType]) Paginate(sb *bun.SelectQuery) (r *bun.SelectQuery, err error)
+//@   property C21
+//@   requires o.query.Order != nil && sb != nil
+//@   modifies qLimit, qLimitCount, qOffset, qOffsetCount, qOrderExpr
+//@   ensures (err != nil) == (o.query.Offset > 2147483647)
+//@   ensures err == nil ==> r != nil && qOrderExpr == sprintf("%s %s", o.query.Column, deref(o.query.Order))
+//@   ensures err == nil && o.query.Offset > 0 ==> qOffset == o.query.Offset && qOffsetCount == old(qOffsetCount) + 1
+//@   ensures err == nil && o.query.Offset == 0 ==> qOffsetCount == old(qOffsetCount)
+//@   ensures err == nil && o.query.PageSize > 0 ==> qLimit == o.query.PageSize + 1 && qLimitCount == old(qLimitCount) + 1
+//@   ensures err == nil && o.query.PageSize == 0 ==> qLimitCount == old(qLimitCount)
+
+//@ func (o OffsetPaginator[ResourceType, OptionsType]) BuildCursor(ret []ResourceType) (r *paginate.Cursor[ResourceType], err error)
+//@   property C21
+//@   requires o.query.PageSize <= 9223372036854775807 && o.query.Offset <= 9223372036854775807
+//@   ensures err == nil ==> r != nil && r.PageSize == o.query.PageSize && r.HasMore == (next != nil)
+//@   ensures err == nil ==> (next != nil) == (o.query.PageSize != 0 && len(ret) > o.query.PageSize)
+//@   ensures err == nil && next != nil ==> next.Offset == o.query.Offset + o.query.PageSize && next.PageSize == o.query.PageSize && len(r.Data) == len(ret) - 1
+//@   ensures err == nil && next == nil ==> len(r.Data) == len(ret)
+//@   ensures err == nil ==> forall i int :: {r.Data[i]} 0 <= i && i < len(r.Data) ==> r.Data[i] == ret[i]
+//@   ensures err == nil ==> (previous != nil) == (o.query.Offset > 0)
+//@   ensures err == nil && previous != nil ==> previous.Offset == max(0, o.query.Offset - o.query.PageSize) && previous.PageSize == o.query.PageSize
+//@   ensures err != nil ==> o.query.Offset + o.query.PageSize > 18446744073709551615
